@@ -594,6 +594,10 @@ func importTables(c *Ctx) {
 		ok, all := distinctQualifiers(w)
 		return ok && len(importsOf(w).Keys) == 4, "packages m/foo-bar (named sync), m/xfoo/foo_bar (foobar), m/sync (foo), then m/foobar (foo): " + all + "; want four imports with pairwise distinct qualifiers (while the conflicts of a new import are being resolved it is not yet among the imports the search sees, so a name just given to it can be given again)"
 	})
+	scenario("numbered-then-a-third", nil, "", []step{{"example.com/app/go-kit", "kit"}, {"example.com/app/kit", "kit"}, {"example.com/other/kit", "kit"}}, func(w *regWorld, r []interp.Value) (bool, string) {
+		ok, all := distinctQualifiers(w)
+		return ok && len(importsOf(w).Keys) == 3, "two packages whose whole paths sanitise to the same name (the second is numbered, the first keeps its name), then a third package of that name: " + all + "; want three imports with pairwise distinct qualifiers (the one that kept its name must still be seen as holding it)"
+	})
 	searchLiveTable(c)
 	run.Floor("G-IMPORT/table", 9)
 }
@@ -612,46 +616,45 @@ func searchLiveTable(c *Ctx) {
 		}
 		run.Undecided(rule, key, p, "the registry cannot be interpreted for this scenario: "+err.Error())
 	}
-	const dep = "example.test/dep"
 	// the qualifier search is live: it sees an import under the qualifier it has now. Observed through the
-	// exported API only: an import is re-aliased behind the registry's back (the way conflict resolution
-	// does it: by writing Package.Alias); a package named like the new alias must then meet a conflict, and
-	// a package named like the old qualifier must not.
-	// two fresh registries, each with one import registered as dep and then re-aliased to renamed
-	world := func() (*regWorld, *interp.Ptr, error) {
-		w, err := newRegWorld(prog, nil, "")
+	// exported API only (a registry may keep an index by qualifier, as long as it keeps it current): two
+	// packages named dep are registered, which renames both; then
+	// (1) a package named like the new qualifier of the first must end up distinct from it, and
+	// (2) a package that the source imports under the alias dep — a name nobody holds any more — keeps that alias.
+	world := func(specs []importSpec) (*regWorld, string, interp.Value, error) {
+		w, err := newRegWorld(prog, specs, "")
 		if err != nil {
-			return nil, nil, err
+			return nil, "", nil, err
 		}
-		v, err := w.addImport(dep, "dep")
+		a, err := w.addImport("a.test/x/dep", "dep")
 		if err != nil {
-			return nil, nil, err
+			return nil, "", nil, err
 		}
-		p, _ := v.(*interp.Ptr)
-		if p == nil {
-			return nil, nil, fmt.Errorf("AddImport returned no import for another package")
+		if _, err = w.addImport("b.test/y/dep", "dep"); err != nil {
+			return nil, "", nil, err
 		}
-		p.Elem.Fields["Alias"] = interp.Lit("renamed")
-		return w, p, nil
+		qa, err := w.qualifier(a)
+		return w, qa, a, err
 	}
-	// (1) a package named like the new alias meets a conflict: afterwards the two are told apart
-	w1, p1, err := world()
-	var q1, qp string
+	w1, qa, a1, err := world(nil)
+	var q1, qa1 string
+	if err == nil && (qa == "dep" || qa == "") {
+		err = fmt.Errorf("two packages named dep leave the first one qualified %q", qa)
+	}
 	if err == nil {
 		var v interp.Value
-		if v, err = w1.addImport("x.test/renamed", "renamed"); err == nil {
+		if v, err = w1.addImport("z.test/"+qa, qa); err == nil {
 			if q1, err = w1.qualifier(v); err == nil {
-				qp, err = w1.qualifier(p1)
+				qa1, err = w1.qualifier(a1)
 			}
 		}
 	}
-	// (2) a package named like the old qualifier meets none: it keeps its plain name
 	var q2 string
 	if err == nil {
 		var w2 *regWorld
-		if w2, _, err = world(); err == nil {
+		if w2, _, _, err = world([]importSpec{{"dep", false, "c.test/w/other"}}); err == nil {
 			var v interp.Value
-			if v, err = w2.addImport("y.test/dep", "dep"); err == nil {
+			if v, err = w2.addImport("c.test/w/other", "other"); err == nil {
 				q2, err = w2.qualifier(v)
 			}
 		}
@@ -660,8 +663,8 @@ func searchLiveTable(c *Ctx) {
 		und("G-IMPORT/search-live", "table", err)
 		return
 	}
-	f1, f2 := q1 != qp, q2 != "dep"
-	run.Check("G-IMPORT/search-live", "table", pos, f1 && !f2, fmt.Sprintf("after an import registered as dep was re-aliased to renamed, the qualifier search finds renamed: %v, dep: %v (a new package named renamed ends up as %q next to %q; a new package named dep is qualified %q); want true and false — conflict resolution renames imports after they were registered, so the search must compare current qualifiers, not an index built at registration", f1, f2, q1, qp, q2))
+	f1, f2 := q1 != qa1 && q1 != "" && qa1 != "", q2 == "dep"
+	run.Check("G-IMPORT/search-live", "table", pos, f1 && f2, fmt.Sprintf("two packages named dep were registered and the first is now qualified %q: a new package named %s ends up as %q next to %q (want distinct), and a package the source imports as dep — a name nobody holds any more — is qualified %q (want dep): conflict resolution renames imports after they were registered, so the search must see current qualifiers, not what was true at registration", qa, qa, q1, qa1, q2))
 }
 
 // registeredPaths: the import paths the registry reports through its exported API (Imports, Package.Path);
